@@ -13,6 +13,7 @@ except for `fixsigns()`, whose choice of the modes that absorb an odd number of 
 the mode ORDER (`relabel_fixsigns_counterexample`).
 -/
 import PyttbModel.Lemmas.PresentationRun
+import PyttbModel.Alg.PresentationRelabel
 import PyttbModel.Lemmas.MLSums
 import PyttbModel.Lemmas.Perm
 import PyttbModel.Lemmas.EraseDups
@@ -276,10 +277,6 @@ end coefs
 section steps
 variable {α : Type} [Field α]
 
-/-- the loop variables with the per-mode lists (`U`, `UtU`) relabelled; everything else as it is -/
-def relabelSt (p : List Nat) (st : State α) : State α :=
-  { st with U := gatherD st.U p [], UtU := gatherD st.UtU p [] }
-
 /-- What the second problem is, relative to the first: `p` a permutation of the modes, the shape
 relabelled, the same `norm()`, the relabelling law of `mttkrp` (`mttkrp_relabel`: a consequence of the
 data laws for `X` and `permute X p`), and a solver that answers the request of mode `k` the way the first
@@ -453,9 +450,6 @@ end steps
 
 section cleanup
 variable {α : Type} [Field α] [LinearOrder α] [IsStrictOrderedRing α]
-
-/-- the Kruskal tensor with the factor list relabelled and the same weights -/
-def relabelK (p : List Nat) (K : Ktensor α) : Ktensor α := ⟨K.weights, gatherD K.factors p []⟩
 
 theorem tab_congr (I R : Nat) (f g : Nat → Nat → α) (h : ∀ i < I, ∀ r < R, f i r = g i r) : tab I R f = tab I R g := by
   unfold tab
@@ -646,15 +640,6 @@ theorem arrange_relabel {p : List Nat} {N : Nat} (hp : isPermOf p N = true) {o :
 
 /-! ### `fixsigns()` -/
 
-/-- mode `n` has a negative entry of largest magnitude in column `r` -/
-def isNegMode (o : NumOps α) (K : Ktensor α) (r n : Nat) : Bool :=
-  o.lt ((col (K.factors.getD n []) (K.factors.getD n []).length r).getD
-    (argmaxAbs o (col (K.factors.getD n []) (K.factors.getD n []).length r)) 0) 0
-
-/-- the modes of component `r` with a negative entry of largest magnitude, increasing -/
-def negModes (o : NumOps α) (K : Ktensor α) (r : Nat) : List Nat :=
-  (List.range K.factors.length).filter (isNegMode o K r)
-
 theorem flippedModes_eq (o : NumOps α) (K : Ktensor α) (r : Nat) :
     flippedModes o K r = (negModes o K r).take (2 * ((negModes o K r).length / 2)) := rfl
 
@@ -662,6 +647,10 @@ theorem flippedModes_eq (o : NumOps α) (K : Ktensor α) (r : Nat) :
 modes with a negative dominant entry is even (all of them are flipped) or at most one (none is). -/
 def ParityOK (o : NumOps α) (K : Ktensor α) : Prop :=
   ∀ r < K.weights.length, (negModes o K r).length % 2 = 0 ∨ (negModes o K r).length ≤ 1
+
+/-- the executable form (`Alg/PresentationRelabel.lean`, run by the driver) decides it -/
+theorem parityOK_iff (o : NumOps α) (K : Ktensor α) : parityOK o K = true ↔ ParityOK o K := by
+  simp [parityOK, ParityOK, List.all_eq_true]
 
 theorem isNegMode_relabel {p : List Nat} {N : Nat} (hp : isPermOf p N = true) (o : NumOps α) (K : Ktensor α)
     (r : Nat) {k : Nat} (hk : k < N) : isNegMode o (relabelK p K) r k = isNegMode o K r (p.getD k 0) := by
@@ -752,27 +741,6 @@ end cleanup
 
 section setup
 variable {α : Type} [Field α] [LinearOrder α] [IsStrictOrderedRing α]
-
-/-- a list of modes of the original problem, as modes of the relabelled problem -/
-def qmap (p : List Nat) (l : List Nat) : List Nat := l.map fun n => (invPerm p).getD n 0
-
-/-- the options of the second run: `dimorder` (the default made explicit) and `optdims` mapped through
-`invPerm p`, everything else unchanged -/
-def relabelParams (p : List Nat) (N : Nat) (P : Params α) : Params α :=
-  { P with dimorder := some (qmap p (P.dimorder.getD (List.range N))), optdims := P.optdims.map (qmap p) }
-
-/-- the start of the second run -/
-def relabelInit (p : List Nat) : Init α → Init α
-  | .given K => .given (relabelK p K)
-  | .random draws => .random (gatherD draws p [])
-  | .nvecs => .nvecs
-  | .unsupported => .unsupported
-
-/-- `optdims` as reported by the second run -/
-def relabelOd (p : List Nat) (given : Option (List Nat)) (od : List Nat) : List Nat :=
-  match given with
-  | none => od
-  | some _ => qmap p od
 
 theorem isPermOf_qmap {p di : List Nat} {N : Nat} (hp : isPermOf p N = true) (hd : isPermOf di N = true) :
     isPermOf (qmap p di) N = true := by
